@@ -58,7 +58,7 @@ Proof.
 Qed.
 
 (* what is known about the parsed printed tokens, in one place *)
-Theorem printed_pipeline sym_hash e : efrag 3 e = true -> printable e = true ->
+Theorem printed_pipeline sym_hash e : efrag LV e = true -> printable e = true ->
   exists Tn ns c0,
     parse (ttoks e) = Ok (nid Tn, ns) /\ ns <> [] /\
     Compile.tree_of ns (nid Tn) = Some (img Tn) /\ links_in_range ns = true /\
@@ -66,8 +66,8 @@ Theorem printed_pipeline sym_hash e : efrag 3 e = true -> printable e = true ->
     convert sym_hash (aprint e) ns (cci c0) = Ok (code (compile_prog sym_hash e)) /\
     ccj c0 = jt (compile_prog sym_hash e).
 Proof.
-  intros F Pr. destruct (printable_parts 3 e F Pr) as [Wf P].
-  destruct (parse_printed 3 e F Wf P) as (Tn & ns & Hp & Ht & D & O & R & Cov).
+  intros F Pr. destruct (printable_parts LV e F Pr) as [Wf P].
+  destruct (parse_printed LV e F Wf P) as (Tn & ns & Hp & Ht & D & O & R & Cov).
   destruct (compile_printed sym_hash e Tn ns F P R D) as (c0 & Hc & Hcv & Hj).
   exists Tn, ns, c0. split; [exact Hp|]. split.
   { destruct (denotes_root ns None Tn D) as (n & Hn & _). intros ->. destruct (nid Tn); discriminate Hn. }
@@ -75,7 +75,7 @@ Proof.
 Qed.
 
 (* ... so wherever the builder model succeeds on that node array, it produces the AST compiler's program *)
-Theorem wl_agrees_if_build_ok sym_hash e : efrag 3 e = true -> printable e = true ->
+Theorem wl_agrees_if_build_ok sym_hash e : efrag LV e = true -> printable e = true ->
   (forall ns root t c0, parse (ttoks e) = Ok (root, ns) -> Compile.tree_of ns root = Some t ->
      links_in_range ns = true -> Compile.compile empty_init lit_all t = Ok c0 ->
      exists r, build ns empty_init lit_all (build_fuel ns) root = Ok r) ->
